@@ -81,3 +81,82 @@ func vh_C01_selftest() {
 		vxAssert(len(m.Attributes) == 0, "selftest: deliberately false")
 	}
 }
+
+// vxPrevRaw: the Raw buffer left behind by an earlier use (nil, or any length/capacity/content).
+func vxPrevRaw() []byte {
+	if vxChoose(2) == 0 {
+		return nil
+	}
+	n, c := vxInt(), vxInt()
+	vxAssume(0 <= n)
+	vxAssume(n <= c)
+	vxAssume(c <= vxMaxMsg)
+	return vxBytes(n, c)
+}
+
+// The copying entry points: Decode(data, m), Write, UnmarshalBinary, GobDecode, CloneTo.
+func vh_C01_copying() {
+	vxUnwind(vxK(2, 3), true)
+	data := vxRawBuf()
+	m := new(Message)
+	m.Raw = vxPrevRaw()
+	var err error
+	switch vxChoose(5) {
+	case 0:
+		err = Decode(data, m)
+	case 1:
+		var n int
+		n, err = m.Write(data)
+		vxAssert(n == len(data), "Write reports the whole input as consumed")
+	case 2:
+		err = m.UnmarshalBinary(data)
+	case 3:
+		err = m.GobDecode(data)
+	case 4:
+		src := &Message{Raw: data}
+		err = src.CloneTo(m)
+	}
+	vxAssert(!vxSameObject(m.Raw, data), "Raw is a private copy, not the caller's buffer")
+	vxAssert(len(m.Raw) == len(data), "Raw holds exactly the input")
+	w := vxInt()
+	vxAssume(0 <= w)
+	vxAssume(w < len(data))
+	vxAssert(m.Raw[w] == data[w], "Raw holds exactly the input bytes")
+	if err != nil {
+		vxReach("reject")
+		return
+	}
+	vxReach("accept")
+	vxCheckViews(m, m.Raw)
+}
+
+type vxReader struct{ calls int }
+
+// Read: the documented io.Reader contract only — 0 <= n <= len(p), any bytes, any error.
+func (r *vxReader) Read(p []byte) (int, error) {
+	r.calls++
+	n := vxInt()
+	vxAssume(0 <= n)
+	vxAssume(n <= len(p))
+	copy(p, vxBytes(n, n))
+	if vxBool() {
+		return n, errVxCallback
+	}
+	return n, nil
+}
+
+func vh_C01_readfrom() {
+	vxUnwind(vxK(2, 3), true)
+	m := new(Message)
+	m.Raw = vxPrevRaw()
+	r := &vxReader{}
+	n, err := m.ReadFrom(r)
+	vxAssert(r.calls == 1, "ReadFrom reads once")
+	if err != nil {
+		vxReach("reject")
+		return
+	}
+	vxReach("accept")
+	vxAssert(int(n) == len(m.Raw), "ReadFrom reports the bytes read")
+	vxCheckViews(m, m.Raw)
+}
